@@ -78,5 +78,20 @@ PLANS = {
              'firing with another occurrence pending, a chain >= 2, or conflicting completion rows.',
         assumptions=['completion guards are frozen from the entry of their source state (property quantifier)'],
     ),
+    'C03': dict(
+        oracle='C03', level='exploration',
+        profiles=[('intro', 6)], curated=[], configs=ALLCFG,
+        cp=dict(max_ops=30, kinds=['P', 'P', 'P', 'P', 'Q', 'X', 'T'], auto_probe=True, final_stop=True,
+                scripts={'p': ['r', 'Q', 'q']}),
+        examples=(300, 2500), floor=(80, 800),
+        rule='Generated start/process_event/enqueue/execute-queued/stop histories (callbacks submit further events) on machines '
+             'with hierarchy, history, pseudo states and completion rows; full introspection probe after every operation. '
+             'Model-free oracle: entry/exit ledger alternates; one entered state per region of each active machine and it belongs '
+             'to the region; current_state/get_active_state_ids, is_state_active, visitors (4 modes), get_state_by_id agree with the '
+             'ledger; ids follow the documented numbering (computed from the spec); stop() exits everything innermost-first. '
+             'Non-trivial = quiescent point after a submachine entry/exit, a cascade or a nested submission; distinct by '
+             '(spec, set of entered states).',
+        assumptions=['exception-free behaviours (property domain)', 'events are submitted only between start() and stop()'],
+    ),
 }
 NOT_YET = {}
